@@ -18,13 +18,13 @@ func init() {
 		Doc:      "every handler is tracked: the Handler constructors of lib/file are referenced (called or passed as values) only by methods of Container; createHandler returns success only after Container.Add succeeded and Add stores the handler in Container.m; Commit/Rollback reach ReleaseResources → CloseAll and ReleaseResourcesWithErrors reaches CloseAllWithErrors, whose loops range over Container.m, close each entry and leave the loop early only with an error (CloseAllWithErrors: never)",
 		Controls: []string{"CtlUntrackedHandler"},
 		Run:      ruleClean3})
-	Register(&Rule{ID: "R-CLEAN-4", Props: []string{"C11"}, Floor: 34,
-		Doc:      "reads do not write: Handler.FileForUpdate is called only in Transaction.Commit; every argument bound to a bool parameter named forUpdate is the constant false, a forwarded forUpdate parameter, SelectQuery.IsForUpdate() in Select, or the constant true inside one of the eight data-changing statement functions; Container.CreateHandlerForUpdate is called only under the true edge of a forUpdate test and CreateHandlerForCreate only by CreateTable",
+	Register(&Rule{ID: "R-CLEAN-4", Props: []string{"C11"}, Floor: 30,
+		Doc:      "reads do not write: Handler.FileForUpdate is called only in Transaction.Commit or in functions all of whose call-graph callers are, recursively, such functions, and in Commit no call reaching FileForUpdate can execute after a call reaching Container.Commit (write phase before the first handler is finalised); every argument bound to a bool parameter named forUpdate is the constant false, a forwarded forUpdate parameter, SelectQuery.IsForUpdate() in Select, or the constant true inside one of the eight data-changing statement functions; Container.CreateHandlerForUpdate is called only under the true edge of a forUpdate test and CreateHandlerForCreate only by CreateTable",
 		Controls: []string{"CtlLoadForUpdateInReader", "CtlFileForUpdateOutsideCommit"},
 		Run:      ruleClean4})
 	Register(&Rule{ID: "R-CLEAN-5", Props: []string{"C11"}, Floor: 3,
-		Doc:      "--out: for the go-file Create whose descriptor is handed to Session.SetOutFile, a defer is registered on every path from the successful create before any exit, before SetOutFile and before anything that reaches Processor.Execute; its closure closes that descriptor on every path and removes that path under a test of the file's Size()",
-		Controls: []string{"CtlOutFileNoCleanup"},
+		Doc:      "--out: for the go-file Create (direct, or inside a helper that returns its descriptor on every path after the create) whose descriptor is handed to Session.SetOutFile, a defer (closure, or named function receiving descriptor and path) is registered on every path from the successful create before any exit, before SetOutFile and before anything that reaches Processor.Execute; its closure closes that descriptor on every path and removes that path under a test of the file's Size()",
+		Controls: []string{"CtlOutFileNoCleanup", "CtlOutFileHelperKeepsEmpty"},
 		Run:      ruleClean5})
 }
 
@@ -273,10 +273,23 @@ func ruleClean4(c *Ctx) {
 			n++
 			c.Sites++
 			c.Touch(fn)
-			c.Check(topLevel(p.Name(fn)) == "lib/query.(*Transaction).Commit", c.KeyAt(fn, "obtains the write descriptor "+ordinal(n)), c.Pos(k),
-				"inside Transaction.Commit",
-				"FileForUpdate hands out the descriptor COMMIT writes to (temp file / created file); used anywhere else, table files are written outside the commit protocol")
+			ok, why := calledOnlyFrom(p, fn, func(top string) bool { return top == "lib/query.(*Transaction).Commit" })
+			c.Check(ok, c.KeyAt(fn, "obtains the write descriptor "+ordinal(n)), c.Pos(k),
+				"inside Transaction.Commit, or a function every caller of which (recursively) is Transaction.Commit",
+				"FileForUpdate hands out the descriptor COMMIT writes to (temp file / created file); here it is obtained outside the commit protocol ("+why+"): table files are written without the encode-all-then-swap order")
 		}
+	}
+	// (a') the write phase of the commit protocol ends before the first handler
+	// is finalised: once Container.Commit has made a created file permanent and
+	// dropped its handler from the container, a later failing write can no longer
+	// be rolled back — the created file would stay behind. Where in Commit's call
+	// tree the descriptor is obtained does not matter (clause (a)); when does.
+	if commit := c.Fn("lib/query.(*Transaction).Commit"); commit != nil && c.Fn(fnCCommit) != nil {
+		key := c.KeyAt(commit, "write descriptors obtained only before the first handler is finalised")
+		bad := writeAfterFinalise(c, commit, 0)
+		c.Check(bad == "", key, c.FnPos(commit),
+			"no call that reaches Handler.FileForUpdate can execute after a call that reaches Container.Commit",
+			bad+": when that later write fails, the transaction is rolled back although a handler has already been finalised — a table created by the uncommitted transaction is no longer known to the container / UncommittedViews and stays in the repository")
 	}
 	// (b) forUpdate arguments
 	for _, fn := range p.SrcFuncs() {
@@ -307,6 +320,8 @@ func ruleClean4(c *Ctx) {
 						c.Ok(key, c.Pos(k), "constant false: read-only load")
 					} else if stmt, ok := dataChangingStatements[top]; ok {
 						c.Ok(key, c.Pos(k), "constant true inside the "+stmt+" statement function")
+					} else if ok, _ := calledOnlyFrom(p, fn, func(t string) bool { _, is := dataChangingStatements[t]; return is }); ok {
+						c.Ok(key, c.Pos(k), "constant true inside a helper called only by data-changing statement functions")
 					} else {
 						c.Bad(key, c.Pos(k), "forUpdate = true outside the data-changing statement functions: a statement that only reads takes the write lock, creates a .temp file and marks the table for update")
 					}
@@ -352,11 +367,58 @@ func ruleClean4(c *Ctx) {
 				n++
 				c.Sites++
 				c.Touch(fn)
-				c.Check(topLevel(p.Name(fn)) == "lib/query.CreateTable", c.KeyAt(fn, "creates a table file "+ordinal(n)), c.Pos(k),
-					"inside CreateTable", "CreateHandlerForCreate creates a table file on disk; only CREATE TABLE may do that")
+				okc, whyc := calledOnlyFrom(p, fn, func(t string) bool { return t == "lib/query.CreateTable" })
+				c.Check(okc, c.KeyAt(fn, "creates a table file "+ordinal(n)), c.Pos(k),
+					"inside CreateTable (or a helper only CreateTable calls)", "CreateHandlerForCreate creates a table file on disk; only CREATE TABLE may do that ("+whyc+")")
 			}
 		}
 	}
+}
+
+// writeAfterFinalise looks, in fn and (for a single call that does both) in its
+// static callees, for a call reaching Handler.FileForUpdate that can execute
+// after a call reaching Container.Commit. Returns a description or "".
+func writeAfterFinalise(c *Ctx, fn *ssa.Function, depth int) string {
+	p := c.P
+	var fin, wr []ssa.CallInstruction
+	for _, f := range funcAndClosures(fn) {
+		for _, k := range core.Calls(f) {
+			if _, isDefer := k.(*ssa.Defer); isDefer {
+				continue
+			}
+			if callReachesNamed(p, k, fnCCommit) {
+				fin = append(fin, k)
+			}
+			if callReachesNamed(p, k, "lib/file.(*Handler).FileForUpdate") {
+				wr = append(wr, k)
+			}
+		}
+	}
+	for _, f := range fin {
+		for _, w := range wr {
+			if f.Parent() != w.Parent() {
+				continue
+			}
+			if f != w {
+				if reachAfter(f, w, nil, nil) {
+					return fmt.Sprintf("in %s, %s at %s (obtains a write descriptor) can execute after %s at %s has finalised a handler", p.Name(fn), describeCall(p, w), c.Pos(w), describeCall(p, f), c.Pos(f))
+				}
+				continue
+			}
+			// one call writes and finalises
+			if reachAfter(f, f, nil, nil) {
+				return fmt.Sprintf("in %s, %s at %s both writes a file and finalises its handler and is executed repeatedly: the second file is written after the first handler was finalised", p.Name(fn), describeCall(p, f), c.Pos(f))
+			}
+			if depth < 3 {
+				if callee := core.StaticCallee(f); callee != nil && callee.Blocks != nil {
+					if bad := writeAfterFinalise(c, callee, depth+1); bad != "" {
+						return bad
+					}
+				}
+			}
+		}
+	}
+	return ""
 }
 
 // ---------------------------------------------------------------------------
@@ -400,6 +462,223 @@ func sameOrigins(a, b ssa.Value) bool {
 	return true
 }
 
+// outFile describes the creation of a file whose descriptor a function holds:
+// directly by go-file Create, or through a helper that returns the descriptor
+// of a Create it performs (followed up to two levels).
+type outFile struct {
+	call   ssa.CallInstruction    // the creating call in the holding function
+	fp     ssa.Value              // its descriptor there
+	isPath func(v ssa.Value) bool // v is the path the file was created at (holder's scope)
+	helper *ssa.Function          // non-nil when the Create happens inside a helper
+	leak   string                 // the helper can return without handing out the descriptor it created
+}
+
+func isOsFilePtr(t types.Type) bool { return types.TypeString(t, nil) == "*os.File" }
+
+func isString(t types.Type) bool {
+	b, ok := t.Underlying().(*types.Basic)
+	return ok && b.Kind() == types.String
+}
+
+func outCreator(c *Ctx, k ssa.CallInstruction, depth int) *outFile {
+	p := c.P
+	call, ok := k.(*ssa.Call)
+	if !ok {
+		return nil
+	}
+	if calleeIn(p, k, fnGoCreate) && len(call.Call.Args) == 1 {
+		arg := call.Call.Args[0]
+		return &outFile{call: k, fp: resultOf(k, 0), isPath: func(v ssa.Value) bool { return sameOrigins(v, arg) }}
+	}
+	f := core.StaticCallee(k)
+	if f == nil || f.Blocks == nil || depth >= 2 || p.Name(f) == f.String() || p.InPkg(f, "lib/file") {
+		return nil
+	}
+	res := f.Signature.Results()
+	if res.Len() < 1 || !isOsFilePtr(res.At(0).Type()) {
+		return nil
+	}
+	var inner []*outFile
+	for _, ik := range core.Calls(f) {
+		if in := outCreator(c, ik, depth+1); in != nil {
+			inner = append(inner, in)
+		}
+	}
+	if len(inner) == 0 {
+		return nil
+	}
+	// every return hands out nil or the descriptor of one of the creates
+	fromInner := func(v ssa.Value) *outFile {
+		for _, in := range inner {
+			if v != nil && originIs(v, in.fp) {
+				return in
+			}
+		}
+		return nil
+	}
+	type succ struct {
+		r  *ssa.Return
+		in *outFile
+	}
+	var succs []succ
+	for _, r := range realReturns(f) {
+		for _, v := range returnOperandDeep(r, 0) {
+			if v != nil && core.IsNilConst(v) {
+				continue
+			}
+			in := fromInner(v)
+			if in == nil {
+				return nil // hands out some other descriptor: not a creator helper
+			}
+			succs = append(succs, succ{r, in})
+		}
+	}
+	if len(succs) == 0 {
+		return nil
+	}
+	of := &outFile{call: k, fp: resultOf(k, 0), helper: f}
+	// between the create and the return nothing may drop the descriptor
+	for _, in := range inner {
+		if in.leak != "" {
+			of.leak = in.leak
+		}
+		closes := func(x ssa.Instruction) bool {
+			ck, ok := x.(ssa.CallInstruction)
+			return ok && (calleeIn(p, ck, "(*os.File).Close") || calleeIn(p, ck, fnGoClose)) && len(ck.Common().Args) > 0 && originIs(ck.Common().Args[0], in.fp)
+		}
+		for _, r := range returnsWithout(f, in.call, closes, failureEdgeOf(in.call)) {
+			for _, v := range returnOperandDeep(r, 0) {
+				if v == nil || !originIs(v, in.fp) {
+					of.leak = "in " + f.Name() + " the return at " + c.Pos(r) + " is reachable after the file was created without handing out (or closing) its descriptor"
+				}
+			}
+		}
+	}
+	// which results / parameters carry the created path
+	pathVals := map[ssa.Value]bool{}
+	for j := 1; j < res.Len(); j++ {
+		if !isString(res.At(j).Type()) {
+			continue
+		}
+		all := true
+		for _, sc := range succs {
+			for _, v := range returnOperandDeep(sc.r, j) {
+				if v == nil || !sc.in.isPath(v) {
+					all = false
+				}
+			}
+		}
+		if all {
+			if rv := resultOf(k, j); rv != nil {
+				pathVals[rv] = true
+			}
+		}
+	}
+	var passthrough []ssa.Value
+	for i, par := range f.Params {
+		if !isString(par.Type()) || i >= len(k.Common().Args) {
+			continue
+		}
+		all := true
+		for _, in := range inner {
+			if !in.isPath(par) {
+				all = false
+			}
+		}
+		if all {
+			passthrough = append(passthrough, k.Common().Args[i])
+		}
+	}
+	of.isPath = func(v ssa.Value) bool {
+		os := core.Origins(v, false)
+		ok := len(os) > 0
+		for _, o := range os {
+			if !pathVals[o] {
+				ok = false
+			}
+		}
+		if ok {
+			return true
+		}
+		for _, a := range passthrough {
+			if sameOrigins(v, a) {
+				return true
+			}
+		}
+		return false
+	}
+	return of
+}
+
+// outCleanup is a deferred clean-up of an outFile: a closure, or a named
+// function / method that receives the descriptor (and the path) as arguments.
+type outCleanup struct {
+	d      *ssa.Defer
+	body   *ssa.Function
+	isFp   func(v ssa.Value) bool
+	isPath func(v ssa.Value) bool
+}
+
+func valueInSet(v ssa.Value, set map[ssa.Value]bool) bool {
+	os := core.Origins(v, false)
+	if len(os) == 0 {
+		return false
+	}
+	for _, o := range os {
+		if !set[o] {
+			return false
+		}
+	}
+	return true
+}
+
+func outCleanupOf(p *core.Prog, d *ssa.Defer, of *outFile) *outCleanup {
+	var cl *outCleanup
+	if mc, ok := d.Call.Value.(*ssa.MakeClosure); ok {
+		body, _ := mc.Fn.(*ssa.Function)
+		if body == nil || body.Blocks == nil {
+			return nil
+		}
+		cl = &outCleanup{d: d, body: body,
+			isFp:   func(v ssa.Value) bool { return originIs(v, of.fp) },
+			isPath: of.isPath}
+	} else if f := d.Call.StaticCallee(); f != nil && f.Blocks != nil {
+		fpPar, pathPar := map[ssa.Value]bool{}, map[ssa.Value]bool{}
+		for i, a := range d.Call.Args {
+			if i >= len(f.Params) {
+				break
+			}
+			if originIs(a, of.fp) {
+				fpPar[f.Params[i]] = true
+			} else if isString(a.Type()) && of.isPath(a) {
+				pathPar[f.Params[i]] = true
+			}
+		}
+		if len(fpPar) == 0 {
+			return nil
+		}
+		cl = &outCleanup{d: d, body: f,
+			isFp:   func(v ssa.Value) bool { return valueInSet(v, fpPar) },
+			isPath: func(v ssa.Value) bool { return valueInSet(v, pathPar) }}
+	} else {
+		return nil
+	}
+	for _, ck := range core.Calls(cl.body) {
+		if cl.closes(p, ck) {
+			return cl
+		}
+	}
+	return nil
+}
+
+func (cl *outCleanup) closes(p *core.Prog, in ssa.Instruction) bool {
+	ck, ok := in.(ssa.CallInstruction)
+	if !ok || !(calleeIn(p, ck, "(*os.File).Close") || calleeIn(p, ck, fnGoClose)) || len(ck.Common().Args) == 0 {
+		return false
+	}
+	return cl.isFp(ck.Common().Args[0])
+}
+
 func ruleClean5(c *Ctx) {
 	p := c.P
 	n := 0
@@ -407,21 +686,26 @@ func ruleClean5(c *Ctx) {
 		if p.InPkg(fn, "lib/file") {
 			continue
 		}
+		var setOuts []ssa.CallInstruction
+		for _, k2 := range core.Calls(fn) {
+			if calleeIn(p, k2, "lib/query.(*Session).SetOutFile") {
+				setOuts = append(setOuts, k2)
+			}
+		}
+		if len(setOuts) == 0 {
+			continue
+		}
 		for _, k := range core.Calls(fn) {
-			cr, ok := k.(*ssa.Call)
-			if !ok || !calleeIn(p, k, fnGoCreate) || len(cr.Call.Args) != 1 {
+			of := outCreator(c, k, 0)
+			if of == nil || of.fp == nil {
 				continue
 			}
-			fp := resultOf(cr, 0)
 			// role: the descriptor becomes the session's out file
 			var setOut ssa.CallInstruction
-			for _, k2 := range core.Calls(fn) {
-				if !calleeIn(p, k2, "lib/query.(*Session).SetOutFile") {
-					continue
-				}
+			for _, k2 := range setOuts {
 				for _, a := range k2.Common().Args {
 					for _, o := range core.Origins(a, false) {
-						if o == fp {
+						if o == of.fp {
 							setOut = k2
 						}
 					}
@@ -435,74 +719,30 @@ func ruleClean5(c *Ctx) {
 			}
 			c.Sites++
 			c.Touch(fn)
-			// the cleanup defers of fn for this file
-			closesFp := func(clo *ssa.Function) (every bool, any bool) {
-				isClose := func(in ssa.Instruction) bool {
-					ck, ok := in.(ssa.CallInstruction)
-					if !ok || !(calleeIn(p, ck, "(*os.File).Close") || calleeIn(p, ck, fnGoClose)) || len(ck.Common().Args) == 0 {
-						return false
-					}
-					for _, o := range core.Origins(ck.Common().Args[0], false) {
-						if o == fp {
-							return true
-						}
-					}
-					return false
-				}
-				for _, ck := range core.Calls(clo) {
-					if isClose(ck) {
-						any = true
-					}
-				}
-				return any && core.EscapeFromEntry(clo, isClose, nil) == nil, any
+			if of.helper != nil {
+				c.Touch(of.helper)
 			}
-			removesEmpty := func(clo *ssa.Function) (bool, string) {
-				for _, ck := range core.Calls(clo) {
-					if !isRemoveCall(p, ck) || !sameOrigins(ck.Common().Args[0], cr.Call.Args[0]) {
-						continue
-					}
-					for _, f := range core.FactsAt(ck.Block()) {
-						if !f.Neg && mentionsSize(f.Cond, 0) {
-							return true, ""
-						}
-					}
-					return false, "the removal at " + c.Pos(ck) + " is not guarded by a test of the file's Size(): a non-empty result file would be deleted"
-				}
-				return false, "the deferred closure does not remove the created path: a run that produces no output leaves an empty file behind"
-			}
-			var defers []*ssa.Defer
-			var closures []*ssa.Function
+			var cleanups []*outCleanup
 			for _, b := range fn.Blocks {
 				for _, in := range b.Instrs {
-					d, ok := in.(*ssa.Defer)
-					if !ok {
-						continue
-					}
-					mc, ok := d.Call.Value.(*ssa.MakeClosure)
-					if !ok {
-						continue
-					}
-					clo, _ := mc.Fn.(*ssa.Function)
-					if clo == nil {
-						continue
-					}
-					if _, any := closesFp(clo); any {
-						defers = append(defers, d)
-						closures = append(closures, clo)
+					if d, ok := in.(*ssa.Defer); ok {
+						if cl := outCleanupOf(p, d, of); cl != nil {
+							cleanups = append(cleanups, cl)
+						}
 					}
 				}
 			}
 			isCleanupDefer := func(in ssa.Instruction) bool {
-				for _, d := range defers {
-					if in == d {
+				for _, cl := range cleanups {
+					if in == cl.d {
 						return true
 					}
 				}
 				return false
 			}
 			keyReg := c.KeyAt(fn, "clean-up of the --out file deferred right after its creation")
-			bad := ""
-			walkAfter(cr, failureEdgeOf(cr), func(in ssa.Instruction) bool {
+			bad := of.leak
+			walkAfter(of.call, failureEdgeOf(of.call), func(in ssa.Instruction) bool {
 				if isCleanupDefer(in) {
 					return false
 				}
@@ -518,24 +758,36 @@ func ruleClean5(c *Ctx) {
 				}
 				return true
 			})
-			c.Check(bad == "" && len(defers) > 0, keyReg, c.Pos(cr), "every path from the successful create reaches the defer before any exit, SetOutFile or Execute",
-				map[bool]string{true: "no deferred closure closes the created descriptor", false: bad}[len(defers) == 0])
+			c.Check(bad == "" && len(cleanups) > 0, keyReg, c.Pos(of.call), "every path from the successful create reaches the defer before any exit, SetOutFile or Execute",
+				map[bool]string{true: "no deferred closure or function closes the created descriptor", false: bad}[len(cleanups) == 0])
 			keyClose := c.KeyAt(fn, "deferred clean-up closes the --out descriptor")
 			keyRm := c.KeyAt(fn, "deferred clean-up removes the --out file when it is empty")
-			if len(closures) == 0 {
-				c.Bad(keyClose, c.Pos(cr), "no deferred closure closes the created descriptor")
-				c.Bad(keyRm, c.Pos(cr), "no deferred clean-up")
+			if len(cleanups) == 0 {
+				c.Bad(keyClose, c.Pos(of.call), "no deferred closure or function closes the created descriptor")
+				c.Bad(keyRm, c.Pos(of.call), "no deferred clean-up")
 				continue
 			}
-			clo := closures[0]
-			every, _ := closesFp(clo)
-			c.Check(every, keyClose, c.FnPos(clo), "every path through the closure closes the descriptor", "a path through the deferred closure returns without closing the descriptor")
-			okRm, why := removesEmpty(clo)
-			c.Check(okRm, keyRm, c.FnPos(clo), "os.Remove of the created path under a test of Size()", why)
+			cl := cleanups[0]
+			every := core.EscapeFromEntry(cl.body, func(in ssa.Instruction) bool { return cl.closes(p, in) }, nil) == nil
+			c.Check(every, keyClose, c.FnPos(cl.body), "every path through the deferred clean-up closes the descriptor", "a path through the deferred clean-up returns without closing the descriptor")
+			okRm, why := false, "the deferred clean-up does not remove the created path: a run that produces no output leaves an empty file behind"
+			for _, ck := range core.Calls(cl.body) {
+				if !isRemoveCall(p, ck) || len(ck.Common().Args) == 0 || !cl.isPath(ck.Common().Args[0]) {
+					continue
+				}
+				okRm, why = false, "the removal at "+c.Pos(ck)+" is not guarded by a test of the file's Size(): a non-empty result file would be deleted"
+				for _, f := range core.FactsAt(ck.Block()) {
+					if !f.Neg && mentionsSize(f.Cond, 0) {
+						okRm, why = true, ""
+					}
+				}
+				break
+			}
+			c.Check(okRm, keyRm, c.FnPos(cl.body), "os.Remove of the created path under a test of Size()", why)
 		}
 	}
 	if n == 0 {
-		c.Unknown("anchor:--out file", "-", "cannot-analyse: no go-file Create whose descriptor is passed to Session.SetOutFile is found outside lib/file")
+		c.Unknown("anchor:--out file", "-", "cannot-analyse: no go-file Create (direct or through a helper that returns its descriptor) whose descriptor is passed to Session.SetOutFile is found outside lib/file")
 	}
 }
 
